@@ -122,6 +122,29 @@ def run(ctx):
             out = emit(ctx, eng, copy.deepcopy(d), next_opts(), ("built", "loaded", "loaded+comments")[mode])
         if out and len(res.samples) < 2 and 150 < len(out) < 700:
             res.sample({"options": engine.opt_key(osets[0]), "text": out})
+    # several roots in one document (an include fragment), key-value blocks among them: METADATA ... END CLASS ... END
+    for j in range(ctx.n(160, 2400)):
+        parts = []
+        for _ in range(r.randint(2, 4)):
+            if r.random() < 0.4:
+                kw = r.choice(["METADATA", "VALIDATION", "CONNECTIONOPTIONS"])
+                pairs = " ".join(f'"k{i}" "{gen.rand_string(r, False, multiline_ok=False).replace(chr(34), "")}"' for i in range(r.randint(1, 3)))
+                parts.append(f"{kw} {pairs} END")
+            else:
+                nd = gen.gen_node(r, r.choice(["class", "layer", "style", "label", "class"]), gen.GenOpts(gated=ctx.gated, p_key=0.15, dup=0.0, max_objects=6))
+                parts.append(render.render([nd]).text)
+        text = "\n".join(parts)
+        try:
+            d = eng.loads(text, include_comments=False)
+        except Exception as ex:
+            res.count("multi_root_text_not_accepted:" + type(ex).__name__)
+            continue
+        if not isinstance(d, list):
+            continue
+        res.count("multi_root_documents")
+        res.seen("multi-root-shapes", " ".join("kv" if x.get("__type__") in vocab.kv_keys() else "obj" for x in d))
+        for _ in range(2):
+            emit(ctx, eng, copy.deepcopy(d), next_opts(), "multi-root")
     # edited dictionaries
     for j in range(ctx.n(600, 8000)):
         nodes = [gen.gen_node(r, r.choice(["map", "layer", "class", "style", "label"]), gen.GenOpts(gated=ctx.gated, p_key=0.2, dup=0.0, max_objects=12))]
